@@ -272,7 +272,7 @@ class Translator:
             t = s.targets[0]
             if isinstance(t, ast.Name):
                 if t.id in ("func", "interface", "imlevel", "name", "method", "code", "co", "len", "getattr",
-                            "CO_VARARGS", "CO_VARKEYWORDS"):
+                            "zip", "dict", "Method", "CO_VARARGS", "CO_VARKEYWORDS"):
                     raise Abort("assignment to a reserved name: " + _where(s))
                 key, want = t.id, None
             elif isinstance(t, ast.Attribute) and isinstance(t.value, ast.Name) and t.value.id == "method" \
@@ -397,6 +397,28 @@ def _check_flags(tree):
         raise Abort("CO_VARARGS / CO_VARKEYWORDS are not CPython's flag values: %r" % (vals,))
 
 
+def _check_builtins(tree):
+    """len / zip / dict / getattr mean the builtins: nothing in the module rebinds them."""
+    names = {"len", "zip", "dict", "getattr"}
+    for n in ast.walk(tree):
+        bound = []
+        if isinstance(n, ast.Name) and isinstance(n.ctx, (ast.Store, ast.Del)):
+            bound = [n.id]
+        elif isinstance(n, (ast.FunctionDef, ast.AsyncFunctionDef, ast.ClassDef)):
+            bound = [n.name]
+        elif isinstance(n, (ast.Import, ast.ImportFrom)):
+            bound = [(a.asname or a.name).split(".")[0] for a in n.names]
+            if any(a.name == "*" for a in n.names):
+                raise Abort("star import in the module")
+        elif isinstance(n, ast.arg):
+            bound = [n.arg]
+        elif isinstance(n, (ast.Global, ast.Nonlocal)):
+            bound = list(n.names)
+        hit = names.intersection(bound)
+        if hit:
+            raise Abort("builtin %s is rebound in the module (line %s)" % (sorted(hit), getattr(n, "lineno", "?")))
+
+
 def _check_method_class(tree):
     """class Method's class-level initial values are what the ``init`` step assumes."""
     cls = [n for n in tree.body if isinstance(n, ast.ClassDef) and n.name == "Method"]
@@ -439,6 +461,7 @@ Definition translation_ok : bool := %(ok)s.
 def translate_source(text, path="<string>"):
     tree = ast.parse(text)
     _check_flags(tree)
+    _check_builtins(tree)
     _check_method_class(tree)
     fn = _find_function(tree, "fromFunction")
     body = Translator().function(fn)
